@@ -101,18 +101,49 @@ NbrsFast(c, shape, st, ol, lin) ==
          IN {c + p[2] : p \in {q \in ol : \A d \in 1..Len(shape) :
                                    LET x == xs[d] + q[1][d] IN 0 <= x /\ x < shape[d]}}
     ELSE {c + k : k \in lin}
-RECURSIVE FillFast(_, _, _, _, _, _, _)
-FillFast(front, seen, rest, shape, st, ol, lin) ==
-    LET nxt == {d \in UNION {NbrsFast(c, shape, st, ol, lin) : c \in front} : d \in rest}
-    IN IF nxt = {} THEN seen
-       ELSE FillFast(nxt, seen \cup nxt, rest \ nxt, shape, st, ol, lin)
-ComponentOfFast(c, S, shape, offs) ==
-    FillFast({c}, {c}, S \ {c}, shape, Strides(shape), OffLin(shape, offs), LinOffs(shape, offs))
-RECURSIVE ComponentsFast(_, _, _)
-ComponentsFast(S, shape, offs) ==
-    IF S = {} THEN {}
-    ELSE LET K == ComponentOfFast(LeastOf(S), S, shape, offs)
-         IN {K} \cup ComponentsFast(S \ K, shape, offs)
+(* Breadth-first layers: in an undirected graph the neighbours of layer k lie in layers     *)
+(* k-1, k, k+1, so a new cell only has to be tested against the current and the previous  *)
+(* layer (no growing "seen" set: linear cost on grids with 10^5 cells).  The set to fill   *)
+(* is given as a 0/1 mask minus the cells in excl.                                         *)
+RECURSIVE FillLayers(_, _, _, _, _, _, _, _, _)
+FillLayers(front, prev, layers, mask, excl, shape, st, ol, lin) ==
+    LET nxt == {d \in UNION {NbrsFast(c, shape, st, ol, lin) : c \in front} :
+                   mask[d] = 1 /\ d \notin front /\ d \notin prev /\ d \notin excl}
+    IN IF nxt = {} THEN UNION {layers[i] : i \in 1..Len(layers)} \cup front
+       ELSE FillLayers(nxt, front, Append(layers, front), mask, excl, shape, st, ol, lin)
+ComponentOfMask(c, mask, excl, shape, offs) ==
+    FillLayers({c}, {}, <<>>, mask, excl, shape, Strides(shape), OffLin(shape, offs), LinOffs(shape, offs))
+ComponentOfFast(c, S, shape, offs) == ComponentOfMask(c, MaskOf(S, NCells(shape)), {}, shape, offs)
+(* All components of the cells of a mask, for grids with 10^5 cells: the grid is padded    *)
+(* with one layer of empty cells, so that every region cell is an inner cell of the padded *)
+(* grid and its neighbours are simply q + k for the linear offsets k (no border tests, no  *)
+(* wrap-around: a step off the original grid lands on an empty padding cell).              *)
+PadShape(shape) == [d \in 1..Len(shape) |-> shape[d] + 2]
+PadMask(mask, shape) ==
+    LET ps == PadShape(shape) pst == Strides(ps) st == Strides(shape) n == Len(shape) IN
+    [q \in 1..NCells(ps) |->
+        LET xs == [d \in 1..n |-> Coord(q, ps, pst, d)] IN
+        IF \A d \in 1..n : 1 <= xs[d] /\ xs[d] <= shape[d]
+        THEN mask[1 + SumSeq([d \in 1..n |-> (xs[d] - 1) * st[d]])] ELSE 0]
+Unpad(q, shape) ==
+    LET ps == PadShape(shape) pst == Strides(ps) st == Strides(shape) IN
+    1 + SumSeq([d \in 1..Len(shape) |-> (Coord(q, ps, pst, d) - 1) * st[d]])
+RECURSIVE FillPadded(_, _, _, _, _, _)
+FillPadded(front, prev, layers, pm, excl, lin) ==
+    LET nxt == {d \in {c + k : c \in front, k \in lin} :
+                   pm[d] = 1 /\ d \notin front /\ d \notin prev /\ d \notin excl}
+    IN IF nxt = {} THEN UNION {layers[i] : i \in 1..Len(layers)} \cup front
+       ELSE FillPadded(nxt, front, Append(layers, front), pm, excl, lin)
+RECURSIVE ComponentsPadded(_, _, _)
+ComponentsPadded(pm, excl, lin) ==
+    LET rest == {q \in 1..Len(pm) : pm[q] = 1 /\ q \notin excl}
+    IN IF rest = {} THEN {}
+       ELSE LET K == FillPadded({LeastOf(rest)}, {}, <<>>, pm, excl, lin)
+            IN {K} \cup ComponentsPadded(pm, excl \cup K, lin)
+ComponentsOfMask(mask, shape, offs) ==
+    LET comps == ComponentsPadded(PadMask(mask, shape), {}, LinOffs(PadShape(shape), offs))
+    IN {{Unpad(q, shape) : q \in K} : K \in comps}
+ComponentsFast(S, shape, offs) == ComponentsOfMask(MaskOf(S, NCells(shape)), shape, offs)
 
 (* two cells / two sets touch (some cell of A is a neighbour of some cell of B) *)
 Touch(A, B, shape, offs) ==
